@@ -55,6 +55,12 @@ struct CfgWeightFloat : CfgCommon {
     using Loc = std::array<unsigned long, 2>;
 };
 
+struct CfgShapeF35 : CfgWeightFloat {
+    static constexpr long NbData = 3;
+    using Inner = WeightKernel<Real, Space, true>;
+    static constexpr long NbRhs = 5;
+};
+
 // other shapes of the particle containers: fewer data values than result values, and extra data values
 struct CfgShape35 : CfgBaseMorton {
     static constexpr long NbData = 3;
@@ -82,6 +88,10 @@ REG("morton/weight_float/seq", CfgWeightFloat, EX_SEQ);
 REG("morton/weight_float/omp", CfgWeightFloat, EX_OMP);
 REG("morton/weight_float/seqtsm", CfgWeightFloat, EX_SEQ_TSM);
 REG("morton/weight_float/omptsm", CfgWeightFloat, EX_OMP_TSM);
+REG("morton/weight_f35/seq", CfgShapeF35, EX_SEQ);
+REG("morton/weight_f35/omp", CfgShapeF35, EX_OMP);
+REG("morton/weight_f35/seqtsm", CfgShapeF35, EX_SEQ_TSM);
+REG("morton/weight_f35/omptsm", CfgShapeF35, EX_OMP_TSM);
 REG("morton/weight_s35/seq", CfgShape35, EX_SEQ);
 REG("morton/weight_s35/omp", CfgShape35, EX_OMP);
 REG("morton/weight_s35/seqtsm", CfgShape35, EX_SEQ_TSM);
